@@ -4,6 +4,7 @@ import (
 	"bufio"
 	"bytes"
 	"crypto/sha256"
+	"errors"
 	"fmt"
 	"net"
 	"net/http"
@@ -152,6 +153,41 @@ func runC14(c *Ctx) error {
 			}
 			_ = conn.WriteClose(1000, nil)
 		}
+	}
+	// ---- (a2) the reason passed to WriteClose belongs to the caller again when the call returns: whatever the connection
+	// keeps about its end (the error handed to OnClose) must not change when the caller reuses that buffer
+	for _, server := range []bool{true, false} {
+		h := &recHandler{}
+		conn, tap, err := connSpec{Server: server}.open(h)
+		if err != nil {
+			return err
+		}
+		reason := []byte("reason-owned-by-the-caller-0123456789")
+		_ = conn.WriteClose(4001, reason)
+		tap.setEOF()
+		runWithTimeout(5*time.Second, conn.ReadLoop)
+		var cerr error
+		for _, e := range h.events() {
+			if e.Kind == "close" {
+				cerr = e.Err
+			}
+		}
+		tag := fmt.Sprintf("close reason reused after WriteClose server=%v", server)
+		before := fmt.Sprintf("%v|%+v", cerr, cerr)
+		var ce *gws.CloseError
+		var rcopy []byte
+		if errors.As(cerr, &ce) {
+			rcopy = append([]byte(nil), ce.Reason...)
+		}
+		for i := range reason {
+			reason[i] = 'X'
+		}
+		after := fmt.Sprintf("%v|%+v", cerr, cerr)
+		if before != after || (ce != nil && !bytes.Equal(rcopy, ce.Reason)) {
+			c.oracleFail(fmt.Sprintf("the error delivered to OnClose changed when the caller reused the reason buffer it had passed to WriteClose: %q -> %q [%s]", before, after, tag),
+				"payload-read-later", map[string]any{"tag": tag})
+		}
+		c.count(tag, true, "kind=close-reason-reuse")
 	}
 	// ---- (b) held messages under the scribbler
 	for _, server := range []bool{true, false} {
